@@ -215,6 +215,14 @@ class Family:
                     status = "known:" + ",".join(mechs)
                     self.stats["known_finding_programs"] += 1
             if status == "violation":
+                # findings identified by their witness only: the failing program must be exactly the recorded witness
+                for mech0, e in run.findings.items():
+                    w = e.get("witness") or {}
+                    if w.get("witness_only") and w.get("source") == p.src and run.known(mech0, {"source": p.src}):
+                        status = "known:" + mech0
+                        self.stats["known_finding_programs"] += 1
+                        break
+            if status == "violation":
                 mech = findings.signature(p.src, r)
                 if mech and self.run.known(mech, {"source": p.src[:300], "differing_observables": sorted(r.diff_keys)}):
                     status = "known:" + mech
